@@ -465,22 +465,33 @@ theorem C14_model_meets_spec_soap_open {ε : Type} [DecidableEq ε] (known : ε 
 
 /-! ## 4c. The URI binding (`HTTPBase.use_http_uri`) and `Entity.unravel` outside the three codecs -/
 
-/-- **URI binding, request form**: for EVERY destination without `?` and `#`, any non-empty message
-    (identifier) and any relay state, the receiver's query parameters are exactly `ID` = the message and
-    RelayState iff one was given: no caller string adds, removes or changes a parameter. -/
-theorem C14_uri_request_roundtrip (msg dest rs : Bytes) (hq : 63 ∉ dest) (hh : 35 ∉ dest)
+/-- **URI binding, request form**, full strength (as for the redirect and artifact URLs): for EVERY
+    destination — with or without `#fragment`, with no query, an empty query, a query ending in `?` or
+    `&`, or any other existing query — any non-empty message (identifier) and any relay state, the
+    receiver's query parameters are the destination's own followed by exactly `ID` = the message and
+    RelayState iff one was given: no caller string adds, removes or changes a parameter, and the
+    destination's parameters are preserved. -/
+theorem C14_uri_request_roundtrip (msg dest rs : Bytes)
     (hmsg : IsBytes msg) (hne : msg ≠ []) (hrs : IsBytes rs) :
     specUrl dest (withRelay (sID, msg) rs) (uriUrl msg dest rs) = true ∧
-      parseQsl (queryOf (uriUrl msg dest rs)) = withRelay (sID, msg) rs := by
-  rw [uriUrl_eq_addQuery msg dest rs hq hh]
+      parseQsl (queryOf (uriUrl msg dest rs)) = parseQsl (queryOf dest) ++ withRelay (sID, msg) rs := by
   have h := addQuery_spec dest _ _ (urlencode_no_hash _) (withRelay_roundtrip sID msg rs isBytes_ID hmsg hne hrs)
-  refine ⟨h, ?_⟩
-  have h2 : parseQsl (queryOf dest) = [] := by rw [queryOf_no_q dest hq]; exact parseQsl_nil
-  simpa [specUrl, h2] using h
+  exact ⟨h, eq_of_beq h⟩
 
-/-- The statement is about destinations without a query: with one, the hand-glued `?` hides the
-    parameters (evaluated: `/?a=b` + `ID=x` reads back as `a = b?ID=x`). -/
-example : parseQsl (queryOf (uriUrl [120] [47, 63, 97, 61, 98] [])) = [([97], [98, 63, 73, 68, 61, 120])] ∧
+/-- Without a query of its own the destination contributes nothing: exactly `ID` and RelayState. -/
+theorem C14_uri_request_plain_dest (msg dest rs : Bytes) (hq : 63 ∉ dest)
+    (hmsg : IsBytes msg) (hne : msg ≠ []) (hrs : IsBytes rs) :
+    parseQsl (queryOf (uriUrl msg dest rs)) = withRelay (sID, msg) rs := by
+  have h2 : parseQsl (queryOf dest) = [] := by rw [queryOf_no_q dest hq]; exact parseQsl_nil
+  simpa [h2] using (C14_uri_request_roundtrip msg dest rs hmsg hne hrs).2
+
+/-- The old failing input (fixed in f3123de0: `?` was glued on whatever the destination carried, so
+    `/?a=b` + `ID=x` read back as `a = b?ID=x`), evaluated, with the other destination shapes: existing
+    query, fragment, empty query, trailing `&`, and hostile message / relay state. -/
+example : parseQsl (queryOf (uriUrl [120] [47, 63, 97, 61, 98] [])) = [([97], [98]), (sID, [120])] ∧
+    parseQsl (queryOf (uriUrl [120] [47, 63, 97, 61, 98, 35, 102] [114])) = [([97], [98]), (sID, [120]), (sRelayState, [114])] ∧
+    parseQsl (queryOf (uriUrl [120] [47, 63] [])) = [(sID, [120])] ∧
+    parseQsl (queryOf (uriUrl [120] [47, 63, 97, 61, 98, 38] [])) = [([97], [98]), (sID, [120])] ∧
     parseQsl (queryOf (uriUrl [120, 38, 61] [47] [114, 35])) = [(sID, [120, 38, 61]), (sRelayState, [114, 35])] := by decide
 
 /-- **URI binding, response form**: a message of one line without surrounding white space is the
@@ -552,13 +563,9 @@ theorem C14_model_meets_spec_uri (typ : Bytes) (pts : List Nat) (msg dest rs : B
       subst h2
       simp only [h3, if_false, if_true]
       unfold specUriRequest
-      by_cases hq : 63 ∈ dest
-      · simp [hq]
-      · by_cases hh : 35 ∈ dest
-        · simp [hh]
-        · by_cases hne : msg = []
-          · simp [hne]
-          · simp [(C14_uri_request_roundtrip msg dest rs hq hh hmsg hne hrs).1]
+      by_cases hne : msg = []
+      · simp [hne]
+      · simp [(C14_uri_request_roundtrip msg dest rs hmsg hne hrs).1]
     · simp [h1, h2]
 
 /-- `Entity.unravel` for `BINDING_URI` / `None` hands the text on untouched; for a binding it does not
